@@ -105,6 +105,10 @@ impl Property for P {
             "TimestampsCustomFormat renderings that do not sort chronologically are attributed to the listed finding KF-C07-1".into(),
         ]
     }
+    fn replay_repeats() -> u32 {
+        // the verdict can depend on the OS schedule (background threads)
+        40
+    }
     fn cases(tier: Tier) -> u64 {
         match tier {
             Tier::Quick => 15_000,
@@ -147,7 +151,7 @@ impl Property for P {
             {
                 let mut ps = hh.points.lock().unwrap();
                 ps.noise_seed = crate::util::fnv(serde_json::to_string(case).unwrap().as_bytes());
-                for n in ["cleanup.item", "cleanup.remove", "gz.create", "gz.copy", "gz.finish", "gz.remove_original", "rotate.mounted", "rotate.begin", "cleanup.thread"] {
+                for n in ["cleanup.item", "cleanup.remove", "gz.create", "gz.copy", "gz.finish", "gz.remove_original", "rotate.mounted", "rotate.begin", "cleanup.thread", "rotate.rename", "open"] {
                     ps.noise_points.insert(n.to_string());
                 }
             }
